@@ -368,8 +368,8 @@ func jsonSafeValue(fd protoreflect.FieldDescriptor, v protoreflect.Value) protor
 			return protoreflect.ValueOfFloat64(-2.25)
 		}
 	case protoreflect.EnumKind:
-		if n := v.Enum(); n < 0 || n > 2 {
-			return protoreflect.ValueOfEnum(1)
+		if vs := fd.Enum().Values(); vs.ByNumber(v.Enum()) == nil { // an undeclared number has no JSON name
+			return protoreflect.ValueOfEnum(vs.Get(vs.Len() - 1).Number())
 		}
 	}
 	return v
